@@ -659,6 +659,9 @@ func (w *world) checkC07(got []result) {
 			if i := bytes.Index(wr.Data, []byte("QUERYX '")); i >= 0 {
 				label = labelOf(string(wr.Data[i:]))
 			}
+			if wr.CtxEndedAtEntry && label != "" && bytes.Contains(stream, []byte("'"+label+"'")) {
+				vs.Failf("c07:bytes-written-for-a-request-whose-context-had-already-ended", "the context of %q had ended before its write began, yet its frame is in the byte stream (write returned n=%d err=%v)", label, wr.N, wr.Err)
+			}
 			switch {
 			case wr.Err == nil:
 				if !bytes.Contains(stream, wr.Data) {
